@@ -34,9 +34,23 @@ for j in jobs:
         v = eval(j['expr'], env)
         out.append({'ok': True, 'repr': repr(v)})
     except BaseException as e:
-        out.append({'ok': False, 'exc': type(e).__name__, 'msg': str(e)[:300]})
+        tb = e.__traceback__
+        while tb is not None and tb.tb_next is not None:
+            tb = tb.tb_next
+        fn = tb.tb_frame.f_code.co_filename if tb is not None else '<string>'
+        # where the exception was raised: in the repository's code, or in this driver / its prelude (then the DRIVER failed, nothing is known about the code)
+        out.append({'ok': False, 'exc': type(e).__name__, 'msg': str(e)[:300], 'where': 'driver' if fn.startswith('<') else fn})
 json.dump(out, sys.stdout)
 '''
+
+
+class DriverError(Exception):
+    """the bounded driver itself raised (its innermost frame is driver code): the stand-in decided nothing"""
+
+
+def check_driver(real):
+    if not real.get('ok') and real.get('where') == 'driver':
+        raise DriverError(f"bounded driver failed in its own code: {real.get('exc')}: {real.get('msg')}")
 
 
 PRELUDE_OF = {}      # expression -> prelude it was evaluated under (so that a replay file is self-contained)
